@@ -1,4 +1,5 @@
 From V Require Import model.Base model.Conc model.Events model.UniqueIndexSet model.RobustIndexSet.
+From V Require model.UniqueIndexSetRA.
 Require Extraction.
 Require Import ExtrOcamlBasic.
 Extraction Language OCaml.
@@ -6,4 +7,14 @@ Definition uis_step1 := Conc.step1 UniqueIndexSet.ustep.
 Definition uis_init := UniqueIndexSet.uinit.
 Definition ruis_step1 := Conc.step1 RobustIndexSet.rstep.
 Definition ruis_init := RobustIndexSet.rinit.
-Extraction "../ocaml/c09/model.ml" uis_step1 uis_init uis_ginv_b uis_linv_b owned_by hd_head hd_aba hd_borrowed ruis_step1 ruis_init N.of_nat N.to_nat.
+Definition uisra_step1 (Q : UniqueIndexSetRA.vords) := Conc.step1 (UniqueIndexSetRA.vstep Q).
+Definition uisra_init := UniqueIndexSetRA.vinit.
+Definition uisra_mk_ords := UniqueIndexSetRA.Build_vords.
+Definition uisra_set_oracle (g : UniqueIndexSetRA.vgst) (o : list N) : UniqueIndexSetRA.vgst :=
+  UniqueIndexSetRA.set_vg g (UniqueIndexSetRA.vg g) (UniqueIndexSetRA.vhist g) (UniqueIndexSetRA.vlastrel g)
+                          (UniqueIndexSetRA.vrelby g) o (UniqueIndexSetRA.vrace_used g).
+Definition uisra_race_used := UniqueIndexSetRA.vrace_used.
+Definition uisra_oracle := UniqueIndexSetRA.voracle.
+Definition uisra_sc (l : UniqueIndexSetRA.vlst) := UniqueIndexSetRA.vsc l.
+Definition uisra_g (g : UniqueIndexSetRA.vgst) := UniqueIndexSetRA.vg g.
+Extraction "../ocaml/c09/model.ml" uisra_step1 uisra_init uisra_mk_ords uisra_set_oracle uisra_race_used uisra_oracle uisra_sc uisra_g uis_step1 uis_init uis_ginv_b uis_linv_b owned_by hd_head hd_aba hd_borrowed ruis_step1 ruis_init N.of_nat N.to_nat.
